@@ -192,4 +192,17 @@ CHECKS = {
             R("TestC12_Pushdown", 1600, 40000, shards=16),
         ],
     ),
+    "C16": dict(
+        level="exploration",
+        rule=("rapid draws 1-3 integrations (log/transaction/trace shapes, events with arrays and tuple arrays, shuffled columns, notifications), optionally sharing a table (same identity columns), optionally with user-declared identity columns of another integer type, optionally with a pre-existing table that has only some of the columns (and a legacy column). "
+              "Checks: (a) the configuration is accepted, and the same configuration with the table column of one selected input / one non-identity block field removed, or a notification column that does not exist, is rejected; (b) ValidateFix + Migrate on the fake Postgres succeed and every column any integration writes exists (union for shared tables); "
+              "(c) a generated chain (several logs per tx, multi-row logs, several traces per tx) is indexed through the real path without any COPY error and the table equals the projection (no two different rows collide); (d) after the recorded position is reset, re-indexing the same blocks fails with a unique violation. "
+              "non-trivial = a shared table or a pre-existing table with fewer columns."),
+        assumptions=["open finding C16/shared-table-unique-key-first-wins: integrations with different identity columns are not put on one table by the generator (counted as excluded); its reproduction runs in TestC16_KnownFindings",
+                     "identifiers are lower-case ASCII (unquoted identifiers fold to lower case in Postgres; the fake models that)"],
+        units=[
+            R("TestC16_Schema", 1600, 40000, shards=16),
+            P("TestC16_KnownFindings"),
+        ],
+    ),
 }
